@@ -958,7 +958,7 @@ func (runInfo *runInfoStruct) invokeIncludeExpr(expr *ast.IncludeExpr) {
 	if runInfo.err != nil {
 		return
 	}
-	itemExpr := runInfo.rv
+	itemExpr := detachValue(runInfo.rv)
 
 	runInfo.expr = expr.ListExpr
 	runInfo.invokeExpr()
